@@ -21,6 +21,7 @@ ASSUMPTIONS = [
 
 PROFILE = scenario.profile(
     maxD=3,
+    allow_mixed_unbounded=True,  # bounded and unbounded variables in one problem (valid since the per-variable half-bounds fix)
     noise_modes=("none", "none", "auto", "declared", "specified", "specified"),
     specified_spellings=("both", "both", "alone"),
     cons_x0=("margin", "margin", "margin", "snap_only", "boundary"),
